@@ -347,7 +347,7 @@ pub proof fn lemma_entry_reads_back(d: Seq<u8>, p: int, f: ZipFileData, g: ZipFi
         cdh_at(d, p),
         g.file_name@ == f.file_name@,
         g.file_name_raw@ == utf8(f.file_name@),
-        g.file_comment@ == decode_text(flags_of(f), Seq::<u8>::empty()),
+        g.file_comment@ == decode_text(cflags_of(f), Seq::<u8>::empty()),
         g.crc32 == f.crc32,
         g.uncompressed_size == f.uncompressed_size,
         g.compressed_size == f.compressed_size,
@@ -358,7 +358,7 @@ pub proof fn lemma_entry_reads_back(d: Seq<u8>, p: int, f: ZipFileData, g: ZipFi
         g.large_file == (f.uncompressed_size >= U32MAX || f.compressed_size >= U32MAX),
         g.external_attributes == f.external_attributes,
         g.encrypted == f.encrypted,
-        !g.using_data_descriptor,
+        g.using_data_descriptor == f.using_data_descriptor,
         g.version_made_by == f.version_made_by,
         (f.system is Dos || f.system is Unix) ==> g.system == f.system,
         g.extra_field@ == z64c_of(f) + f.extra_field@,
@@ -380,8 +380,7 @@ pub proof fn lemma_entry_reads_back(d: Seq<u8>, p: int, f: ZipFileData, g: ZipFi
     assert(h2.extra_rest == z64c_of(f) + f.extra_field@);
     lemma_written_name_reads_back(f);
     lemma_flags_meaning(f);
-    let fl = flags_of(f);
-    assert((fl & (1u16 << 3) != 0) == (fl & 8 != 0)) by(bit_vector);
+    lemma_cflags_meaning(f);
     lemma_msdos_dt_inv(f.last_modified_time);
     lemma_made_by_inv(f.system, f.version_made_by);
 }
@@ -407,7 +406,7 @@ pub open spec fn entry_read_back(f: ZipFileData, g: ZipFileData) -> bool {
     &&& g.aes_mode is None
     &&& g.external_attributes == f.external_attributes
     &&& g.encrypted == f.encrypted
-    &&& !g.using_data_descriptor
+    &&& g.using_data_descriptor == f.using_data_descriptor
     &&& g.version_made_by == f.version_made_by
     &&& ((f.system is Dos || f.system is Unix) ==> g.system == f.system)
     &&& g.extra_field@ == z64c_of(f) + f.extra_field@
